@@ -7,7 +7,7 @@ package ch
 //@ import proto github.com/ClickHouse/ch-go/proto
 //@ import net net
 
-//@ valid (c *Client): c != nil ==> c.conn != nil && c.lg != nil
+//@ valid (c *Client): c != nil ==> c.conn != nil && c.lg != nil && (c.otel ==> c.tracer != nil)
 //@ global ErrClosed: ErrClosed != nil
 
 // ---------------------------------------------------------------------------
